@@ -79,6 +79,7 @@ HCIcrle_init(accrec_t *access_rec)
 
     /* Initialize RLE state information */
     rle_info->rle_state   = RLE_INIT;          /* start in initial state */
+    rle_info->encoding    = FALSE;             /* nothing waits to be written out */
     rle_info->buf_pos     = 0;                 /* start at the beginning of the buffer */
     rle_info->last_byte   = (unsigned)RLE_NIL; /* start with no code in the last byte */
     rle_info->second_byte = (unsigned)RLE_NIL; /* start with no code here too */
@@ -181,6 +182,8 @@ HCIcrle_encode(compinfo_t *info, int32 length, const uint8 *buf)
     int                    c;           /* character to hold a byte read in */
 
     rle_info = &(info->cinfo.coder_info.rle_info);
+
+    rle_info->encoding = TRUE; /* from here on the buffer holds encoder state */
 
     orig_length = length; /* save this for later */
     while (length > 0) {  /* encode until we stored all the bytes */
@@ -307,6 +310,7 @@ HCIcrle_term(compinfo_t *info)
             HRETURN_ERROR(DFE_INTERNAL, FAIL);
     }
     rle_info->rle_state   = RLE_INIT;
+    rle_info->encoding    = FALSE;
     rle_info->second_byte = rle_info->last_byte = (unsigned)RLE_NIL;
 
     return SUCCEED;
@@ -425,7 +429,8 @@ HCPcrle_seek(accrec_t *access_rec, int32 offset, int origin)
     rle_info = &(info->cinfo.coder_info.rle_info);
 
     if (offset < rle_info->offset) { /* need to seek from the beginning */
-        if ((access_rec->access & DFACC_WRITE) && rle_info->rle_state != RLE_INIT)
+        /* flush what the encoder still holds (state left by the decoder is not to be written) */
+        if ((access_rec->access & DFACC_WRITE) && rle_info->encoding && rle_info->rle_state != RLE_INIT)
             if (HCIcrle_term(info) == FAIL)
                 HRETURN_ERROR(DFE_CTERM, FAIL);
         if (HCIcrle_init(access_rec) == FAIL)
@@ -581,8 +586,8 @@ HCPcrle_endaccess(accrec_t *access_rec)
     info     = (compinfo_t *)access_rec->special_info;
     rle_info = &(info->cinfo.coder_info.rle_info);
 
-    /* flush out RLE buffer */
-    if ((access_rec->access & DFACC_WRITE) && rle_info->rle_state != RLE_INIT)
+    /* flush out RLE buffer (only what the encoder still holds: state left by the decoder is not to be written) */
+    if ((access_rec->access & DFACC_WRITE) && rle_info->encoding && rle_info->rle_state != RLE_INIT)
         if (HCIcrle_term(info) == FAIL)
             HRETURN_ERROR(DFE_CTERM, FAIL);
 
